@@ -25,16 +25,17 @@ type res struct {
 	ID      int    `json:"id"`
 	Kind    string `json:"kind"` // udp | tcpdial | udpmux | tcpmux | srflxmux | turnclient | alloc
 	Gen     int    `json:"gen"`  // driver's generation (number of Restarts returned) when it was acquired
-	Addr    string `json:"addr"` // local address
-	IP      string `json:"ip"`
-	Port    int    `json:"port"`
-	Ufrag   string `json:"ufrag,omitempty"`
+	Addr    string `json:"-"`    // local address
+	IP      string `json:"-"`
+	Port    int    `json:"-"`
+	Ufrag   string `json:"-"`
 	Rel     int    `json:"rel"`     // number of Close calls
 	Removed bool   `json:"removed"` // mux handle whose ufrag was removed from the mux
 	Owned   bool   `json:"owned"`   // filled in at observation time: a current local candidate sits on it
-	Parent  int    `json:"parent"`  // alloc -> turnclient -> local conn (0 = none)
-	MDNS    bool   `json:"mdns,omitempty"`
-	G       int    `json:"g"` // gatherer (arrival number) the driver attributes it to; 0 = companion / unknown
+	Parent  int    `json:"-"`       // alloc -> turnclient -> local conn (0 = none)
+	MDNS    bool   `json:"-"`
+	AI      int    `json:"ai"` // step in which the driver answered it on its own (companions); 0 = not
+	G       int    `json:"g"`  // gatherer (arrival number) the driver attributes it to; 0 = companion / unknown
 }
 
 type parked struct {
